@@ -8,6 +8,8 @@ the model) and decides whether property C05 held:
     are all other registers unless the case itself changed one between save_context and the apply (`inject … co|po x`);
   * the fixed probe evaluation prints what it printed before the failed call; the part after ` side ` (state
     installed outside the registers) may differ only when the evaluation reports a completed install (`say did-…`);
+  * in a backend() case the registers at the poll point of the next cycle (`loop …`) are those of the loop; the heart
+    beat of an object goes off only when an uncaught error was reported;
   * a catch that caught an error leaves this_player() as it was at the catch point (`cg-changed` marker of the
     LPC side); a completed evaluation may keep a command_giver it set itself (`say set-cg`);
   * a catch yields 0, the message of the error that was raised last (as reported to the master's error_handler),
@@ -62,7 +64,7 @@ def thrownOf (input : List String) : List String :=
     | [] => []
   go ts
 
-def alwaysFields : List String := ["sp", "csp", "cg", "ctx", "ld", "rd"]
+def alwaysFields : List String := ["sp", "csp", "cg", "ctx", "ld", "rd", "cgs", "qv"]
 def otherFields : List String := ["co", "po", "prog", "ct", "fp", "pc", "fio", "vio"]
 
 def machinePart (probe : String) : String := (splitOnStr probe " side ").headD ""
@@ -97,14 +99,33 @@ def judgeOutcome (thrown : List String) (st : JSt) (tag text : String) : List St
     else some s!"restore {tag} {k} before={field st.base k} after={field fs k}")
   let probeBad :=
     if st.probe0 != "" && machinePart o.probe != machinePart st.probe0 then [s!"probe {tag} differs: '{o.probe}'"] else []
+  -- one cycle of backend(): the snapshot at the poll point of the NEXT cycle (after the backend's own recovery) must
+  -- show the registers of the loop as they were
+  let loopBad := if st.base.isEmpty then [] else o.segs.flatMap (fun sg =>
+    if sg.startsWith "loop " then
+      let ls := snapFields (sg.drop 5).toString
+      (alwaysFields ++ otherFields).filterMap (fun k =>
+        if field ls k == field st.base k then none
+        else some s!"restore {tag}-loop {k} before={field st.base k} after={field ls k}")
+    else [])
   let installed := o.segs.any (fun s => s.startsWith "say did-")
+  let side := snapFields (sidePart o.probe)
+  let side0 := snapFields (sidePart st.probe0)
   let sideBad :=
-    if st.probe0 != "" && sidePart o.probe != sidePart st.probe0 && !installed then
+    if st.probe0 != "" && field side "in" != field side0 "in" && !installed then
       [s!"half-install {tag} side state '{sidePart o.probe}' without a completed install"] else []
+  -- the heart beat of an object may only go off when an uncaught error was reported (`err …` by the master's handler)
+  -- (an injected fault that hits the master's handler before it logs leaves no `err` line: then the evaluation failed at
+  -- driver level, or the fault of this run was not caught by any catch)
+  let reported := o.segs.any (fun s => s.startsWith "err ") || o.segs.contains "fault-top" ||
+    (tag == "fault" && !o.segs.any (fun s => s == "catch " ++ injected || s == "caught " ++ injected))
+  let hbBad :=
+    if st.probe0 != "" && field side "hb" != field side0 "hb" && !reported then
+      [s!"heart-beat {tag} side state '{sidePart o.probe}' changed without an error reaching the driver"] else []
   let crashBad := if o.segs.any (fun s => s.startsWith "crash") then [s!"crash {tag} {o.segs.getLastD ""}"] else []
   -- the LPC side compares this_player() before and after every catch that caught something
   let cgBad := if o.segs.any (fun s => (s.splitOn "cg-changed").length > 1) then [s!"restore {tag} command_giver not restored by catch"] else []
-  regBad ++ probeBad ++ sideBad ++ crashBad ++ cgBad ++ checkCatches thrown o.segs
+  regBad ++ loopBad ++ probeBad ++ sideBad ++ hbBad ++ crashBad ++ cgBad ++ checkCatches thrown o.segs
 
 def judgeLine (thrown : List String) (st : JSt) (line : String) : JSt :=
   if line.startsWith "crash" || line.startsWith "sanitizer" then { st with bad := st.bad ++ [s!"crash {line}"] }
